@@ -17,13 +17,84 @@
 package main
 
 import (
+	"bytes"
 	"fmt"
 	"go/ast"
+	"go/printer"
 	"go/token"
 	"go/types"
 	"sort"
 	"strings"
 )
+
+// the source text of a node, white space collapsed
+func srcText(n ast.Node) string {
+	var b bytes.Buffer
+	printer.Fprint(&b, fset, n)
+	return strings.Join(strings.Fields(b.String()), " ")
+}
+
+// a statement of a loop body, nested loops reduced to their header
+func skeletonText(st ast.Stmt) string {
+	switch x := st.(type) {
+	case *ast.RangeStmt:
+		t := "for "
+		if x.Key != nil {
+			t += types.ExprString(x.Key)
+		}
+		if x.Value != nil {
+			t += ", " + types.ExprString(x.Value)
+		}
+		return t + " " + x.Tok.String() + " range " + types.ExprString(x.X) + " {...}"
+	case *ast.ForStmt:
+		return "for {...}"
+	}
+	return srcText(st)
+}
+
+// left-hand sides assigned in the body of a method, the receiver replaced by the text of the reader
+func methodAssigns(fd *ast.FuncDecl, reader string) (assigns []string, calls []string) {
+	recv := ""
+	if fd.Recv != nil && len(fd.Recv.List) > 0 && len(fd.Recv.List[0].Names) > 0 {
+		recv = fd.Recv.List[0].Names[0].Name
+	}
+	subst := func(t string) (string, bool) {
+		switch {
+		case t == recv:
+			return "&" + reader, true
+		case t == "*"+recv:
+			return "*&" + reader, true
+		case strings.HasPrefix(t, recv+"."):
+			return reader + t[len(recv):], true
+		}
+		return t, false
+	}
+	ast.Inspect(fd.Body, func(n ast.Node) bool {
+		switch x := n.(type) {
+		case *ast.AssignStmt:
+			for _, l := range x.Lhs {
+				if t, ok := subst(types.ExprString(l)); ok {
+					assigns = append(assigns, t)
+				}
+			}
+		case *ast.CallExpr:
+			uses := false
+			for _, a := range x.Args {
+				if mentions(a, recv) {
+					uses = true
+				}
+			}
+			if sel, ok := x.Fun.(*ast.SelectorExpr); ok && mentions(sel.X, recv) {
+				uses = true
+			}
+			if uses {
+				calls = append(calls, types.ExprString(x.Fun))
+			}
+		}
+		return true
+	})
+	return
+}
 
 func isPipelineReaderPtr(t types.Type) bool {
 	p, ok := t.(*types.Pointer)
@@ -106,6 +177,7 @@ func genLiveHandover() string {
 	var assigns []string
 	type rcall struct{ callee, arg string }
 	var rcalls []rcall
+	var mcalls []string
 	goliveReader := ""
 	nGoLive := 0
 	ast.Inspect(liveIf.Body, func(n ast.Node) bool {
@@ -139,9 +211,18 @@ func genLiveHandover() string {
 			if strings.HasSuffix(callee, ".goLive") || callee == "goLive" {
 				nGoLive++
 			}
-			// a method called ON the reader (client.pr.Reset()) is a use as well
+			// a method called ON the reader: what its body assigns of the reader counts as assigned here
 			if sel, ok := x.Fun.(*ast.SelectorExpr); ok && mentions(sel.X, readReader) {
-				rcalls = append(rcalls, rcall{callee, "(receiver)"})
+				mcalls = append(mcalls, srcText(x))
+				if md := funcs["PipelineReader."+sel.Sel.Name]; md != nil && types.ExprString(sel.X) == readReader {
+					as, cs := methodAssigns(md, readReader)
+					assigns = append(assigns, as...)
+					for _, c := range cs {
+						rcalls = append(rcalls, rcall{c, "(inside " + sel.Sel.Name + ")"})
+					}
+				} else {
+					rcalls = append(rcalls, rcall{callee, "(receiver)"})
+				}
 			}
 		}
 		return true
@@ -205,6 +286,77 @@ func genLiveHandover() string {
 		fail("livehandover: no live loop with a *PipelineReader parameter found")
 	}
 
+	// 4. the loop over the messages of a read that contains the hand-over: its value variable
+	loopVar := ""
+	ast.Inspect(fd.Body, func(n ast.Node) bool {
+		if rs, ok := n.(*ast.RangeStmt); ok && msgsVar != "" && types.ExprString(rs.X) == msgsVar && rs.Value != nil {
+			inside := false
+			ast.Inspect(rs.Body, func(m ast.Node) bool {
+				if m == ast.Node(liveIf) {
+					inside = true
+				}
+				return !inside
+			})
+			if inside {
+				loopVar = types.ExprString(rs.Value)
+			}
+		}
+		return true
+	})
+	// 5. the reader's side of handing messages back: every PipelineReader method the block calls, whole;
+	//    ReadMessages: the statements before its first label and its last two statements
+	var methodBodies [][2]string
+	seen := map[string]bool{}
+	ast.Inspect(liveIf.Body, func(n ast.Node) bool {
+		if c, ok := n.(*ast.CallExpr); ok {
+			if sel, ok := c.Fun.(*ast.SelectorExpr); ok && types.ExprString(sel.X) == readReader {
+				if md := funcs["PipelineReader."+sel.Sel.Name]; md != nil && !seen[sel.Sel.Name] {
+					seen[sel.Sel.Name] = true
+					var sts []string
+					for _, st := range md.Body.List {
+						sts = append(sts, srcText(st))
+					}
+					methodBodies = append(methodBodies, [2]string{sel.Sel.Name, strings.Join(sts, " ;; ")})
+				}
+			}
+		}
+		return true
+	})
+	var rmHead, rmTail []string
+	if rm := funcs["PipelineReader.ReadMessages"]; rm != nil {
+		for _, st := range rm.Body.List {
+			if _, ok := st.(*ast.LabeledStmt); ok {
+				break
+			}
+			rmHead = append(rmHead, srcText(st))
+		}
+		l := rm.Body.List
+		for i := len(l) - 2; i >= 0 && i < len(l); i++ {
+			rmTail = append(rmTail, srcText(l[i]))
+		}
+	} else {
+		fail("livehandover: PipelineReader.ReadMessages not found")
+	}
+	// 6. the read loop of liveSubscription: the statements of the body of its last `for { ... }`, nested loops as headers
+	var subLoop []string
+	if ls := funcs["Server.liveSubscription"]; ls != nil {
+		var last *ast.ForStmt
+		for _, st := range ls.Body.List {
+			if f, ok := st.(*ast.ForStmt); ok && f.Cond == nil && f.Init == nil {
+				last = f
+			}
+		}
+		if last == nil {
+			fail("livehandover: liveSubscription: no read loop `for { ... }` at the top level")
+		} else {
+			for _, st := range last.Body.List {
+				subLoop = append(subLoop, skeletonText(st))
+			}
+		}
+	} else {
+		fail("livehandover: Server.liveSubscription not found")
+	}
+
 	var b strings.Builder
 	b.WriteString("(* GENERATED by /verif/t38x from /repo on every check run. Do not edit. *)\n")
 	b.WriteString("From Coq Require Import String List Bool.\nImport ListNotations.\nOpen Scope string_scope.\n\n")
@@ -234,5 +386,23 @@ func genLiveHandover() string {
 	b.WriteString("].\n")
 	b.WriteString("(* the hand-over block looks at the messages of the hand-over read (the commands that follow the live one) *)\n")
 	fmt.Fprintf(&b, "Definition handover_uses_rest : bool := %v.\n", usesMsgs)
+	b.WriteString("(* methods called on the reader inside the hand-over block (their assignments to the reader are part of handover_assigns) *)\n")
+	fmt.Fprintf(&b, "Definition handover_reader_method_calls : list string :=\n  %s.\n", coqStrList(mcalls))
+	b.WriteString("(* the value variable of the `for ... range msgs` loop that contains the hand-over block *)\n")
+	fmt.Fprintf(&b, "Definition handover_loop_var : string := %s.\n", coqStr(loopVar))
+	b.WriteString("(* those methods, whole: (name, statements joined by ;;) *)\n")
+	b.WriteString("Definition reader_methods : list (string * string) :=\n  [")
+	for i, m := range methodBodies {
+		if i > 0 {
+			b.WriteString(";\n   ")
+		}
+		fmt.Fprintf(&b, "(%s, %s)", coqStr(m[0]), coqStr(m[1]))
+	}
+	b.WriteString("].\n")
+	b.WriteString("(* ReadMessages: the statements before its first label, and its last two statements *)\n")
+	fmt.Fprintf(&b, "Definition readmessages_head : list string :=\n  %s.\n", coqStrList(rmHead))
+	fmt.Fprintf(&b, "Definition readmessages_tail : list string :=\n  %s.\n", coqStrList(rmTail))
+	b.WriteString("(* liveSubscription: the statements of its read loop, nested loops as headers *)\n")
+	fmt.Fprintf(&b, "Definition live_subscription_loop : list string :=\n  %s.\n", coqStrList(subLoop))
 	return b.String()
 }
